@@ -225,9 +225,184 @@ def r4_predicate(ctx):
     return r
 
 
+# ---------------------------------------------------------------------------------------------- evaluation (R0)
+
+UNIVERSE = ["fr", "fr-FR", "fr-CA", "fr-Latn-FR", "en", "en-US", "ca-ES", "ca-ES-valencia"]
+EXTRA_REQUESTS = ["de", "fr-Latn", "en-GB"]
+
+
+def _parse_tag(tag):
+    parts = tag.split("-")
+    script = region = None
+    variants = []
+    for p in parts[1:]:
+        if len(p) == 4 and p.isalpha():
+            script = p
+        elif len(p) == 2:
+            region = p
+        else:
+            variants.append(p)
+    return (parts[0], script, region, tuple(variants))
+
+
+def _lid(tag):
+    from rules.absint import C, CF, L
+    lang, script, region, variants = _parse_tag(tag)
+    S = lambda x: ("str", x)  # noqa: E731
+    return CF("LanguageIdentifier", language=S(lang), script=C("Some", S(script)) if script else C("None"),
+              region=C("Some", S(region)) if region else C("None"), variants=L(*[S(v) for v in variants]))
+
+
+def _matches(avail, req):
+    """the statement's notion: `exactly, or as a less specific form of it such as fr for fr-FR`"""
+    a, q = _parse_tag(avail), _parse_tag(req)
+    return a[0] == q[0] and (a[1] is None or a[1] == q[1]) and (a[2] is None or a[2] == q[2]) and (not a[3] or a[3] == q[3])
+
+
+def r0_negotiation(ctx):
+    """abstract evaluation (rules/absint.py) of find_match / filter_matches / Locale::find_locale / find_matchs on every
+    request list and supported set over a closed universe of language / script / region / variant combinations; the
+    expected outcome is computed from the property statement, not from the code"""
+    import itertools
+    from rules import absint
+    from rules.absint import AEval, C, L
+    r = Rule("C12.R0", "negotiation outcome over a closed universe of tags equals what the statement demands",
+             "`a supported locale matching an earlier-listed language (exactly, or as a less specific form of it) is never passed "
+             "over for one that matches only a later-listed language; for one language an exact match beats a less specific one; "
+             "with no match the default locale`", floor=4)
+    ast = ctx.ast
+    funcs = absint.file_funcs(ast, F)
+    LT = "leptos_i18n/src/locale_traits.rs"
+    for n in ("find_match", "filter_matches", "convert_vec_str_to_langids_lossy"):
+        if n not in funcs:
+            r.missing("langid::" + n)
+            return r, False, 'anchor missing'
+    fl, fms = ast.fn(LT, "find_locale"), ast.fn(LT, "find_matchs")
+    if fl is None or fms is None:
+        r.missing("Locale::find_locale / find_matchs")
+        return r, False, 'anchor missing'
+    lids = {t: _lid(t) for t in UNIVERSE + EXTRA_REQUESTS}
+    back = {v: k for k, v in lids.items()}
+    thorough = ctx.tier == "thorough"
+    av_sets = [c for k in (1, 2, 3) for c in itertools.permutations(UNIVERSE, k)] if thorough else \
+              [c for k in (1, 2) for c in itertools.permutations(UNIVERSE, k)] + [tuple(UNIVERSE), tuple(reversed(UNIVERSE))]
+    reqs_all = UNIVERSE + EXTRA_REQUESTS
+    req_lists = [c for k in (1, 2) for c in itertools.product(reqs_all, repeat=k)]
+    if thorough:
+        req_lists += [c for c in itertools.product(reqs_all, repeat=3) if len(set(c)) == 3 and c[0] in ("de", "fr-Latn", "fr-CA", "en-GB")]
+    n_cases = 0
+    bad = {}
+    unknown = None
+
+    def note(kind, msg):
+        bad.setdefault(kind, msg)
+    for avail in av_sets:
+        av = L(*[lids[t] for t in avail])
+        for req in req_lists:
+            rq = L(*[lids[t] for t in req])
+            ev = AEval(funcs=funcs)
+            best = ev.run_fn(funcs["find_match"], [rq, av])
+            lst = AEval(funcs=funcs).run_fn(funcs["filter_matches"], [rq, av])
+            if isinstance(best, str) or isinstance(lst, str) or lst[0] != "list":
+                unknown = best if isinstance(best, str) else (lst if isinstance(lst, str) else "filter_matches does not return a list")
+                break
+            n_cases += 1
+            first = next((i for i, q in enumerate(req) if any(_matches(a, q) for a in avail)), None)
+            case = "requested %s, supported %s" % (list(req), list(avail))
+            got = "<default>" if best == absint.DEFAULT else back.get(best, absint.fmt(best))
+            if first is None:
+                if best != absint.DEFAULT:
+                    note("no-match-default", "%s: nothing matches, yet `%s` is chosen instead of the default locale" % (case, got))
+                if lst[1]:
+                    note("no-match-default", "%s: nothing matches, yet filter_matches returns %s" % (case, [back.get(x, "?") for x in lst[1]]))
+                continue
+            if best == absint.DEFAULT:
+                note("match-lost", "%s: `%s` is matched by a supported locale, yet the default locale is returned" % (case, req[first]))
+                continue
+            if got not in avail:
+                note("not-supported", "%s: the chosen locale `%s` is not a supported one" % (case, got))
+                continue
+            if not _matches(got, req[first]):
+                note("preference-order", "%s: `%s` is chosen although a supported locale matches the earlier-listed `%s`" % (case, got, req[first]))
+            elif req[first] in avail and got != req[first]:
+                note("exact-first", "%s: `%s` is chosen although `%s` itself is supported" % (case, got, req[first]))
+            # the whole list: supported locales only, no duplicates, grouped by the first request they match, in request order
+            names = [back.get(x) for x in lst[1]]
+            if any(n is None or n not in avail for n in names) or len(set(names)) != len(names):
+                note("list-members", "%s: filter_matches returns %s" % (case, names))
+            else:
+                idx = [next((i for i, q in enumerate(req) if _matches(n, q)), None) for n in names]
+                if None in idx or idx != sorted(idx):
+                    note("list-order", "%s: filter_matches returns %s - a match for a later request precedes one for an earlier request (or a non-match is listed)" % (case, names))
+                if names and names[0] != got:
+                    note("first-is-best", "%s: find_match returns `%s` but filter_matches starts with `%s`" % (case, got, names[0]))
+        if unknown:
+            break
+    if unknown:
+        return r, False, unknown
+    for kind, msg in sorted(bad.items()):
+        r.viol("R0:find_match#" + kind, msg, file=F, line=funcs["find_match"].line)
+    if not bad:
+        r.inst("find_match / filter_matches", "%d (request list, supported set) cases over %d tags: supported-or-default, earlier request wins, exact beats less specific, list grouped in request order" % (n_cases, len(reqs_all)))
+
+    # the public entry points: Locale::find_locale (bytes -> lossy parse -> find_match over get_all) and find_matchs
+    def try_from_bytes(args):
+        v = args[0]
+        if v[0] == "str" and v[1] in lids:
+            return C("Ok", lids[v[1]])
+        return C("Err", absint.A("ParserError"))
+    S = lambda x: ("str", x)  # noqa: E731
+    funcs2 = dict(funcs)
+    n2 = 0
+    bad2 = {}
+    for avail in (("en", "fr", "fr-FR"), ("fr-CA", "en-US", "ca-ES"), tuple(UNIVERSE)):
+        for acc in (["%%bad", "fr-FR", "en"], ["de", "", "fr-CA", "en"], ["not a tag"], [], ["en-GB", "??", "ca-ES-valencia"]):
+            ev = AEval(funcs=funcs2, builtins={"get_all": lambda rv, a, avail=avail: L(*[lids[t] for t in avail]), "from_base_locale": lambda rv, a: a[0] if a else rv})
+            ev.path_builtins = {"LanguageIdentifier::try_from_bytes": try_from_bytes, "Self::get_all": lambda a, avail=avail: L(*[lids[t] for t in avail]),
+                                "Self::from_base_locale": lambda a: a[0], "L::get_all": lambda a, avail=avail: L(*[lids[t] for t in avail])}
+            got = ev.run_fn(fl, [L(*[S(x) for x in acc])])
+            if isinstance(got, str):
+                return r, False, got
+            good = [x for x in acc if x in lids]
+            want = AEval(funcs=funcs).run_fn(funcs["find_match"], [L(*[lids[t] for t in good]), L(*[lids[t] for t in avail])])
+            n2 += 1
+            if got != want:
+                bad2.setdefault("find_locale", "accepted %s, supported %s: find_locale gives %s, negotiation over the parseable entries %s gives %s" % (
+                    acc, list(avail), back.get(got, absint.fmt(got)), good, back.get(want, absint.fmt(want) if not isinstance(want, str) else want)))
+        for q in ("fr-FR", "de", "ca-ES-valencia"):
+            ev = AEval(funcs=funcs2, builtins={"from_base_locale": lambda rv, a: a[0] if a else rv})
+            ev.path_builtins = {"Self::get_all": lambda a, avail=avail: L(*[lids[t] for t in avail]), "Self::from_base_locale": lambda a: a[0],
+                                "std::slice::from_ref": lambda a: L(a[0]), "slice::from_ref": lambda a: L(a[0]), "core::slice::from_ref": lambda a: L(a[0])}
+            got = ev.run_fn(fms, [lids[q]])
+            if isinstance(got, str):
+                return r, False, got
+            want = AEval(funcs=funcs).run_fn(funcs["filter_matches"], [L(lids[q]), L(*[lids[t] for t in avail])])
+            n2 += 1
+            if got != want:
+                bad2.setdefault("find_matchs", "langid %s, supported %s: find_matchs gives %s, filter_matches gives %s" % (q, list(avail), absint.fmt(got), absint.fmt(want) if not isinstance(want, str) else want))
+    for kind, msg in sorted(bad2.items()):
+        r.viol("R0:Locale::" + kind, msg, file=LT)
+    if not bad2:
+        r.inst("Locale::find_locale", "unparseable entries dropped in place, negotiation over Self::get_all(), default when nothing matches")
+        r.inst("Locale::find_matchs", "filter_matches(langid, Self::get_all())")
+        r.inst("convert_vec_str_to_langids_lossy", "keeps the order of the parseable entries (%d entry-point cases)" % n2)
+    return r, True, None
+
+
 def run(ctx):
+    res = r0_negotiation(ctx)
+    r0, ok = res[0], res[1]
+    if ok:
+        return [r0]
+    # the negotiation code could not be evaluated abstractly (a construct outside rules/absint.py): fall back to the
+    # structural clauses on the MIR / syntax of the same functions
+    why = res[2] if len(res) > 2 else "anchor missing"
     prog = ctx.mir("main")
-    return [r1_no_cross_request_reordering(ctx, prog), r2_pass_order(ctx, prog), r3_provenance(ctx, prog), r4_predicate(ctx)]
+    rules = [r1_no_cross_request_reordering(ctx, prog), r2_pass_order(ctx, prog), r3_provenance(ctx, prog), r4_predicate(ctx)]
+    if not r0.violations:
+        r0.inst("evaluation not available", "fallback to structural rules R1-R4: %s" % str(why)[:120])
+        r0.floor = 1
+    return [r0] + rules
 
 
 MANIFEST_ENTRY = {
